@@ -86,7 +86,8 @@ PAIRS.update({
     "inflate.c:inflateReset": [Z + "inflate::reset"],
     "inflate.c:inflateEnd": [Z + "inflate::end"],
     "inflate.c:inflateValidate": [Z + "inflate::validate"],
-    "inflate.c:syncsearch": [Z + "inflate::syncsearch"],
+    # inflate.c:syncsearch was paired and withdrawn: its three pins are a loop bound and a byte comparison over working locals,
+    # which a `for &byte in buf` spelling of the same search leaves nothing of (neutral patch E_C11_r3)
     "inffast_tpl.h:INFLATE_FAST": [Z + "inflate::inflate_fast_help_impl"],
     "deflate.c:deflateReset": [Z + "deflate::reset"],
     "deflate.c:lm_init": [Z + "deflate::lm_init"],
